@@ -13,7 +13,8 @@ import sys
 
 import vlib
 
-ENV = {'C14_A': 'alpha', 'C14_B': 'b-b', 'C14_N': '7', 'C14_P': '/opt/x'}
+ENV = {'C14_A': 'alpha', 'C14_B': 'b-b', 'C14_N': '7', 'C14_P': '/opt/x', 'C14_T': 'true', 'C14_E': 'TICK_5',
+       'C14_S': 'USR1', 'C14_W': 'web'}
 ENV_KEYS = set('ENV_' + k for k in ENV)
 
 # ------------------------------------------------------------------ rendering
@@ -123,15 +124,26 @@ def set_environ():
         os.environ[k] = v
 
 
-def real_parse(path):
+def real_parse(path, cwd=None):
     """Run the real reader on the file.  ('ok', options) | ('err', kind, msg)
-    | ('exc', exception type name, msg)."""
+    | ('exc', exception type name, msg).  `path` may be relative to `cwd`, into
+    which the process changes for the duration of the run."""
     from supervisor.options import ServerOptions
     set_environ()
     o = ServerOptions()
     # only the controlled ENV_ names (the model is told exactly these)
     o.environ_expansions = dict((k, v) for k, v in o.environ_expansions.items() if k in ENV_KEYS)
     o.configfile = path
+    back = os.getcwd()
+    if cwd is not None:
+        os.chdir(cwd)
+    try:
+        return _real_parse(o)
+    finally:
+        os.chdir(back)
+
+
+def _real_parse(o):
     cwd = os.getcwd()
     try:
         o.process_config(do_usage=False)
@@ -238,6 +250,33 @@ FIELD = {
 }
 
 
+EFFECTIVE = {
+    'nodaemon': lambda v: _strict('B', v), 'user': lambda v: _sopt('S', v), 'umask': lambda v: _strict('Z', v),
+    'directory': lambda v: _sopt('S', v), 'logfile': lambda v: _strict('S', v),
+    'logfile_maxbytes': lambda v: _strict('Z', v), 'logfile_backups': lambda v: _strict('Z', v),
+    'loglevel': lambda v: _strict('Z', v), 'pidfile': lambda v: _strict('S', v),
+    'identifier': lambda v: _strict('S', v), 'childlogdir': lambda v: _strict('S', v),
+    'minfds': lambda v: _strict('Z', v), 'minprocs': lambda v: _strict('Z', v),
+    'nocleanup': lambda v: _strict('B', v), 'strip_ansi': lambda v: _strict('B', v),
+    'profile_options': lambda v: _sopt('S', v), 'silent': lambda v: _strict('B', v),
+}
+
+
+def effective_problems(o):
+    """Judge on the implementation: every ServerOptions attribute filled from
+    [supervisord] must hold the section's (configured or section-default) value
+    whenever the section has one."""
+    s = o.configroot.supervisord
+    out = []
+    for name, confname in o.names_list:
+        if confname and confname.startswith('supervisord.'):
+            sv = getattr(s, confname.split('.', 1)[1])
+            ev = getattr(o, name)
+            if sv is not None and (ev != sv or type(ev) is not type(sv)):
+                out.append('options.%s is %r although the [supervisord] section gives %r' % (name, ev, sv))
+    return out
+
+
 def dump_options(o):
     """Flat dump of the [supervisord] values and of every group / process
     config object, in the order coq/C14/Dump.v uses."""
@@ -251,6 +290,10 @@ def dump_options(o):
            _strict('S', s.identifier), _strict('B', s.nodaemon), _strict('B', s.silent),
            _strict('S', s.childlogdir), _strict('B', s.nocleanup), _strict('B', s.strip_ansi)]
     out += _dict(s.environment)
+    out.append(('T', 'effective'))
+    for name, confname in o.names_list:
+        if confname and confname.startswith('supervisord.'):
+            out.append(EFFECTIVE[name](getattr(o, name)))
     assert o.process_group_configs is s.process_group_configs
     for g in o.process_group_configs:
         out += [('T', 'group'), _strict('S', g.name), _strict('Z', g.priority), ('T', type(g).__name__)]
